@@ -41,6 +41,13 @@ func scevOrderSource(depth int) string {
 	// pure builtin calls of one loop that feed each other across blocks: whether the second one can be
 	// hoisted depends on whether the first one already was, i.e. on the order the blocks are visited in
 	b.WriteString("\nfunc Chain(a, b []int, flag bool, k int) int {\n\ts := 0\n\tfor i := 0; i < k; i++ {\n\t\tn := len(a)\n\t\tif flag {\n\t\t\ts += max(n, len(b))\n\t\t} else {\n\t\t\ts += min(n, cap(b))\n\t\t}\n\t\tif i > 3 {\n\t\t\ts -= max(len(a), min(n, 7))\n\t\t}\n\t}\n\treturn s\n}\n")
+	// a function beyond the size guard: whatever is reported in place of its canonical IR is part of the
+	// (name, fingerprint, IR) triple too and must not mention where the file lives
+	b.WriteString("\nfunc Huge(a, b int) int {\n\tt := b\n")
+	for i := 0; i < 2600; i++ {
+		fmt.Fprintf(&b, "\tif a == %d {\n\t\tt += %d\n\t}\n", i%40, 1+i%3)
+	}
+	b.WriteString("\treturn t\n}\n")
 	return b.String()
 }
 
@@ -606,7 +613,9 @@ func runSpecialNative(work, dir string, sp special, src string) ([]string, error
 		files[k] = v
 	}
 	m := strings.Replace(src, "package genpkg", "package main", 1)
-	if strings.Contains(m, "import (") {
+	if strings.Contains(m, "\t\"fmt\"\n") {
+		// the special imports fmt itself
+	} else if strings.Contains(m, "import (") {
 		m = strings.Replace(m, "import (", "import (\n\t\"fmt\"", 1)
 	} else {
 		m = strings.Replace(m, "package main\n", "package main\n\nimport \"fmt\"\n", 1)
